@@ -204,6 +204,9 @@ func (c *checkCtx) tryPlanOnce(p *plan.SchedPlan, key string) (bool, string) {
 // a fresh worker process.
 func (c *checkCtx) minimizeSched(p *plan.SchedPlan, key string) *plan.SchedPlan {
 	budget := 150
+	if p.NOps() > 400 {
+		budget = 220
+	}
 	test := func(q *plan.SchedPlan) bool {
 		if budget <= 0 {
 			return false
@@ -213,6 +216,28 @@ func (c *checkCtx) minimizeSched(p *plan.SchedPlan, key string) *plan.SchedPlan 
 		return ok
 	}
 	cur := p.Clone()
+	// long histories first lose whole blocks of operations (from the end, then
+	// anywhere), halving the block size, before single operations are tried
+	dropRange := func(q *plan.SchedPlan, t, from, to int) *plan.SchedPlan {
+		for j := to - 1; j >= from; j-- {
+			if j < len(q.Tasks[t]) {
+				q = q.DropOp(t, j)
+			}
+		}
+		return q
+	}
+	for t := range cur.Tasks {
+		for size := len(cur.Tasks[t]) / 2; size >= 8 && len(cur.Tasks[t]) > 40 && budget > 20; size /= 2 {
+			for from := len(cur.Tasks[t]) - size; from >= 0 && budget > 20; from -= size {
+				if from+size > len(cur.Tasks[t]) {
+					continue
+				}
+				if q := dropRange(cur, t, from, from+size); test(q) {
+					cur = q
+				}
+			}
+		}
+	}
 	changed := true
 	for changed && budget > 0 {
 		changed = false
